@@ -231,6 +231,26 @@ impl<T> OnceLock<T> {
   }
 }
 
+impl<T: Clone> Clone for OnceLock<T> {
+  fn clone(&self) -> Self {
+    OnceLock { inner: self.inner.clone(), initializing: std::sync::atomic::AtomicBool::new(false) }
+  }
+}
+
+impl<T: PartialEq> PartialEq for OnceLock<T> {
+  fn eq(&self, other: &Self) -> bool {
+    self.inner == other.inner
+  }
+}
+
+impl<T: Eq> Eq for OnceLock<T> {}
+
+impl<T> From<T> for OnceLock<T> {
+  fn from(value: T) -> Self {
+    OnceLock { inner: std::sync::OnceLock::from(value), initializing: std::sync::atomic::AtomicBool::new(false) }
+  }
+}
+
 impl<T: std::fmt::Debug> std::fmt::Debug for OnceLock<T> {
   fn fmt(&self, f: &mut std::fmt::Formatter<'_>) -> std::fmt::Result {
     self.inner.fmt(f)
@@ -251,6 +271,21 @@ impl<T, F: FnOnce() -> T> LazyLock<T, F> {
       let f = this.init.lock().unwrap().take().expect("LazyLock initialiser ran twice");
       f()
     })
+  }
+}
+
+impl<T: Default> Default for LazyLock<T> {
+  fn default() -> Self {
+    LazyLock::new(T::default)
+  }
+}
+
+impl<T: std::fmt::Debug, F> std::fmt::Debug for LazyLock<T, F> {
+  fn fmt(&self, f: &mut std::fmt::Formatter<'_>) -> std::fmt::Result {
+    match self.cell.inner.get() {
+      Some(v) => f.debug_tuple("LazyLock").field(v).finish(),
+      None => f.write_str("LazyLock(<uninit>)"),
+    }
   }
 }
 
@@ -313,6 +348,13 @@ pub mod atomic {
         pub fn fetch_xor(&self, v: $t, o: Ordering) -> $t {
           super::yield_hook("atomic-rmw");
           self.0.fetch_xor(v, o)
+        }
+        pub fn fetch_nand(&self, v: $t, o: Ordering) -> $t {
+          super::yield_hook("atomic-rmw");
+          self.0.fetch_nand(v, o)
+        }
+        pub fn as_ptr(&self) -> *mut $t {
+          self.0.as_ptr()
         }
         pub fn fetch_max(&self, v: $t, o: Ordering) -> $t {
           super::yield_hook("atomic-rmw");
@@ -393,6 +435,13 @@ pub mod atomic {
     pub fn fetch_xor(&self, v: bool, o: Ordering) -> bool {
       super::yield_hook("atomic-rmw");
       self.0.fetch_xor(v, o)
+    }
+    pub fn fetch_not(&self, o: Ordering) -> bool {
+      super::yield_hook("atomic-rmw");
+      self.0.fetch_not(o)
+    }
+    pub fn as_ptr(&self) -> *mut bool {
+      self.0.as_ptr()
     }
     pub fn fetch_nand(&self, v: bool, o: Ordering) -> bool {
       super::yield_hook("atomic-rmw");
